@@ -1,5 +1,6 @@
 import Rie.Proofs.Sys
 import Rie.Proofs.SysAgents
+import Rie.Proofs.SysSerial
 import Rie.Props.Tables
 
 /-!
@@ -128,5 +129,77 @@ example :
     let s := step 0 (step 0 {} (.invoke 0 5 "h")) .rtNext
     s.regOn = false ∧ (step 0 s (.register "late" [.invoke] "")).outs = ["late.register=403,Extension.RegistrationClosed"] ∧
       (step 0 s (.register "late" [.invoke] "")).core = s.core := by decide
+
+
+/-- **An identifier designates at most one extension — whole runs.** From any initial configuration
+    without agents, after any sequence of ops under any scheduler choices, the identities (serial
+    numbers, the model's stand-in for the UUIDs `Lambda-Extension-Identifier` carries) of the existing
+    agents are pairwise distinct and were all issued already (`< nextSerial`). Invariant
+    `Rie.Sys.SInv`, `Rie/Proofs/SysSerial.lean`. -/
+theorem C13_identifiers_unique (s0 : State) (h0 : s0.agents = []) (ops : List (Nat × Op)) :
+    let s := (run s0 [] ops).1
+    (s.agents.map (·.serial)).Nodup ∧ ∀ a ∈ s.agents, a.serial < s.nextSerial := by
+  have hA : AInv s0 := by show AInvL s0.agents; rw [h0]; exact ⟨by simp, by simp⟩
+  have hS : SInv [] s0 := by
+    show SInvL [] (serl s0.agents) s0.nextSerial
+    rw [h0]; exact ⟨by simp [serl], by simp [serl], by simp⟩
+  have i := sinv_run s0 [] ops hA hS
+  exact ⟨i.nodup, fun a ha => i.lt a.serial (List.mem_map_of_mem ha)⟩
+
+/-- **An identifier of an earlier generation is never known again — whole runs.** Let `s1` be any
+    reachable state and `k` an identifier that has been issued (`k < nextSerial`) but designates no
+    agent of `s1` — after a reset that is every identifier issued so far (`C13_reset_kills_identifiers`).
+    Then after ANY further ops, under any scheduler choices, `k` still designates no agent: a `next`,
+    init-error or exit-error call carrying it is answered 403 `Extension.UnknownExtensionIdentifier`
+    and changes nothing but the answer (`C13_stale_identifier_refused`). -/
+theorem C13_stale_identifier (s0 : State) (h0 : s0.agents = []) (ops1 ops2 : List (Nat × Op)) (k : Nat) (H : List Nat) :
+    let s1 := (run s0 [] ops1).1
+    k < s1.nextSerial → (∀ a ∈ s1.agents, a.serial ≠ k) →
+    findAgentBySerial (run s1 H ops2).1 k = none := by
+  intro s1 hk hdead
+  have hA0 : AInv s0 := by show AInvL s0.agents; rw [h0]; exact ⟨by simp, by simp⟩
+  have hS0 : SInv [] s0 := by
+    show SInvL [] (serl s0.agents) s0.nextSerial
+    rw [h0]; exact ⟨by simp [serl], by simp [serl], by simp⟩
+  have hA1 : AInv s1 := ainv_run s0 [] ops1 hA0
+  have hS1 : SInv [] s1 := sinv_run s0 [] ops1 hA0 hS0
+  have hS1k : SInv [k] s1 := ⟨hS1.lt, hS1.nodup, by
+    intro k' hk'
+    have : k' = k := by simpa using hk'
+    subst this
+    exact ⟨hk, by intro hm; obtain ⟨a, ha, he⟩ := List.mem_map.mp hm; exact hdead a ha he⟩⟩
+  have i := sinv_run s1 H ops2 hA1 hS1k
+  have hnot := (i.dead k (by simp)).2
+  unfold findAgentBySerial
+  rw [List.find?_eq_none]
+  intro a ha hak
+  exact hnot (List.mem_map.mpr ⟨a, ha, by simpa using hak⟩)
+
+/-- the reset leaves no agent: every identifier issued before it is dead afterwards -/
+theorem C13_reset_kills_identifiers (s : State) (n : Nat) : (afterReset s n).agents = [] ∧ (afterReset s n).nextSerial = s.nextSerial := by
+  simp [afterReset]
+
+/-- a call carrying an identifier that designates no agent is refused with 403
+    `Extension.UnknownExtensionIdentifier`, and the refusal is nothing but that answer -/
+theorem C13_stale_identifier_refused (s : State) (name : String) (k : Nat) (hid : s.ids.lookup name = some k)
+    (hdead : findAgentBySerial s k = none) :
+    agNext s name "" = reply s name "next" "403,Extension.UnknownExtensionIdentifier" ∧
+    (∀ call et, et ≠ "notype" → agReport s name call et "" = reply s name call "403,Extension.UnknownExtensionIdentifier") := by
+  have hr : resolveId s name "" = .error "403,Extension.UnknownExtensionIdentifier" := by
+    simp [resolveId, hid, hdead]
+  refine ⟨by simp [agNext, hr], ?_⟩
+  intro call et hne
+  simp [agReport, hr]
+
+-- non-vacuity: an extension registers (identifier 1), the runtime dies, the environment is reset;
+-- the next invocation re-launches the extension: the old identifier is refused, re-registration
+-- issues identifier 2, the old one stays refused
+example :
+    let s0 : State := { extFiles := ["a"] }
+    let s1 := (run s0 [] [(0, .invoke 0 5 "h"), (0, .register "a" [.invoke, .shutdown] ""), (0, .agNext "a" ""), (0, .rtNext),
+                          (0, .exit "runtime" "code1" false), (0, .agNext "a" ""), (0, .exit "a" "code0" true),
+                          (0, .timer (.resetTail 2)), (0, .invoke 1 5 "h")]).1
+    s1.agents.map (·.serial) = [2] ∧ s1.ids.lookup "a" = some 1 ∧
+    (step 0 s1 (.agNext "a" "")).outs = ["a.next=403,Extension.UnknownExtensionIdentifier"] := by decide +kernel
 
 end Rie.Props.C13
